@@ -174,6 +174,10 @@ class Ctx:
                     nb2.inlined_from = set(getattr(nb, 'inlined_from', set())) | set(getattr(nb2, 'inlined_from', set()))
                     nb = nb2
             if desugar:
+                from .inline import unroll_array_fills
+                nb6 = unroll_array_fills(nb)
+                if nb6 is not nb:
+                    nb = nb6
                 from .iterx import expand_lazy_iterators
                 nb5 = expand_lazy_iterators(nb, crate)
                 if nb5 is not nb:
@@ -205,7 +209,7 @@ class Ctx:
             return None
         used |= mine
         # closures consumed by a desugared adaptor are analysed in place only
-        gone = {u for u in mine if not u.startswith(('decision-split:', 'jump-threading:', 'collect@')) and crate.body(u) is not None and crate.body(u).kind == 'Closure'}
+        gone = {u for u in mine if not u.startswith(('decision-split:', 'jump-threading:', 'collect@', 'unroll@')) and crate.body(u) is not None and crate.body(u).kind == 'Closure'}
         bodies = [bj for bj in bodies if bj['path'] not in gone]
         for bj in bodies:
             for blk in bj['blocks']:
